@@ -17,7 +17,9 @@ RULE = ("part included_at: component repo = one release branch, 1-10 commits in 
         "branches (release/N.M and/or master), each a linear segment of 0-4 commits forking from an arbitrary commit of a "
         "lower-sorted branch, every commit pins a component build (never decreasing along a path), parent build tags and "
         "heads anywhere, parent commits with or without matching messages, all times inside the cut-off windows, repositories "
-        "supplied in either order. Part dependency_graphs: 2-5 repository classes with generated component locations (DAGs "
+        "supplied in any order; a third of the cases add a third repository that pins builds of the parent (the parent "
+        "then being report-related possibly only through component bumps); a component commit may carry two build tags and "
+        "either number may be pinned. Part dependency_graphs: 2-5 repository classes with generated component locations (DAGs "
         "and cyclic graphs, references to repositories that are not supplied) in generated supply order. Non-trivial = a "
         "parent build whose pin crosses >=2 report-related component builds, or a branch forking below a pin change, or a pin "
         "to a component build without matching commit; distinct by case hash.")
@@ -38,7 +40,20 @@ def comp_spec(case):
                         "files": {"VERSION": "1.0"}})
     tags = [["build_%d_release_1_0_success" % c["tag"], i] for i, c in enumerate(case["comp"]["commits"])
             if c.get("tag") is not None]
+    tags += [["build_%d_release_1_0_success" % c["tag2"], i] for i, c in enumerate(case["comp"]["commits"])
+             if c.get("tag2") is not None]
     return {"name": "comp", "commits": commits, "branches": {"release/1.0": len(commits) - 1}, "tags": tags}
+
+
+def app_spec(case):
+    commits = []
+    for i, c in enumerate(case["app"]["commits"]):
+        msg = ("%s in app %d" % (case["search"], i)) if c["match"] else ("app change %d" % i)
+        commits.append({"parents": c["parents"], "msg": msg, "ts": 9000 + i * 10,
+                        "files": {"VERSION": "3.3", "DEPS.txt": "main=%s\n" % c["pin"]}})
+    tags = [["build_%d_%s_success" % (c["tag"], tag_branch_str(c["tag_branch"])), i]
+            for i, c in enumerate(case["app"]["commits"]) if c.get("tag") is not None]
+    return {"name": "app", "commits": commits, "branches": dict(case["app"]["branches"]), "tags": tags}
 
 
 def parent_spec(case):
@@ -62,26 +77,24 @@ def parent_label(c):
     return "%s.%s.%d" % (parts[0], parts[1], c["tag"])
 
 
-def model(case, K):
-    """K: commit indexes of the component's reported (non-fake) builds - taken from the component's own report, whose
-    placement rules are C06's business; here only the parent side is judged."""
-    cc = case["comp"]["commits"]
-    canc = fakegit.ancestors_or_self([c.get("parents", [i - 1] if i else []) for i, c in enumerate(cc)])
-    num_to_idx = {c["tag"]: i for i, c in enumerate(cc) if c.get("tag") is not None}
+def model_level(comp_parents, key_to_idx, K, pc, pbranches, parent_id, label_of):
+    """comp_parents: parent lists of the component's commits; key_to_idx: pinned version -> component commit index;
+    K: commit indexes of the component's reported (non-fake) builds (read from the component's own report - their
+    placement is C06's business); pc / pbranches: parent commits (with 'pin') and branch heads."""
+    canc = fakegit.ancestors_or_self(comp_parents)
 
     def contains(pin):
-        cv = num_to_idx[pin]
+        cv = key_to_idx[pin]
         return {k for k in K if k in canc[cv]}
-    pc = case["parent"]["commits"]
     parents = [c["parents"] for c in pc]
     anc = fakegit.ancestors_or_self(parents)
-    order = sorted(case["parent"]["branches"], key=fakegit.branch_sort_key)
+    order = sorted(pbranches, key=fakegit.branch_sort_key)
     L = set()
     incl = {k: [] for k in K}
     must_report = []
     info = set()
     for y in order:
-        h = case["parent"]["branches"][y]
+        h = pbranches[y]
         R = anc[h]
         builds = sorted(c for c in R if (pc[c].get("tag") is not None or c == h) and c not in L)
         for b in builds:
@@ -97,9 +110,46 @@ def model(case, K):
                 if not pc[b]["match"]:
                     info.add("parent_build_without_own_matching_commit")
             for k in new:
-                incl[k].append(("main", y, parent_label(pc[b])))
+                incl[k].append((parent_id, y, label_of(pc[b])))
         L |= R
     return incl, must_report, info
+
+
+def reported_builds(rgraph):
+    """-> ({commit idx: sorted included_at triples}, K)"""
+    seen, K = {}, set()
+    for rb in rgraph.branches:
+        for b in rb.get_rbuilds_list():
+            if b.rcommit is None:
+                continue
+            idx = b.rcommit.commit.idx
+            seen[idx] = sorted((str(r), str(br), "not built" if bn.is_fake_not_built() else str(bn))
+                               for r, br, bn in b.included_at)
+            if not b.build_num.is_fake_not_built():
+                K.add(idx)
+    return seen, K
+
+
+def compare_level(f, tag, seen_builds, K, incl, must_report, prg, ctx):
+    for k in K:
+        want = sorted(incl[k])
+        got = [x for x in seen_builds[k]]
+        if got != want:
+            extra = [x for x in got if x not in want]
+            missing = [x for x in want if x not in got]
+            kind = "included_at_extra_parent_build" if extra and not missing else \
+                "included_at_missing_parent_build" if missing and not extra else "included_at_wrong_parent_build"
+            if not extra and not missing:
+                kind = "included_at_duplicate_entry"
+            f.append((kind + tag, f"component build at commit {k}: included_at {got}, expected {want}; {ctx}"))
+    for idx, got in seen_builds.items():
+        if idx not in K and got:
+            f.append(("included_at_on_unexpected_component_build" + tag, f"component commit {idx}: {got}; {ctx}"))
+    reported = {(rb.branch_name, b.rcommit.commit.idx) for rb in prg.branches for b in rb.get_rbuilds_list()
+                if b.rcommit is not None}
+    for y, b in must_report:
+        if (y, b) not in reported:
+            f.append(("parent_build_with_component_bump_not_reported" + tag, f"branch {y} build commit {b}; {ctx}"))
 
 
 def evaluate(case):
@@ -115,15 +165,25 @@ def evaluate(case):
     CompCls = fakegit.make_project_repo_class(G, name="CompRepo")
     MainCls = fakegit.make_project_repo_class(G, {"comp": "DEPENDS"}, name="MainRepo")
     repos = {"comp": CompCls("comp", crepo, "origin"), "main": MainCls("main", prepo, "origin")}
+    expected_order = ["comp", "main"]
+    if case.get("app"):
+        AppCls = fakegit.make_project_repo_class(G, {"main": "DEPS.txt"}, name="AppRepo")
+        repos["app"] = AppCls("app", fakegit.FakeRepo(app_spec(case)), "origin")
+        expected_order.append("app")
+        classes.add("three_level_chain")
+    keys = list(repos)
+    rot = case.get("order_rot", 0) % len(keys)
     if case.get("order") == "main_first":
-        repos = {"main": repos["main"], "comp": repos["comp"]}
-    ctx = f"comp={[(i, c['match'], c.get('tag')) for i, c in enumerate(case['comp']['commits'])]!r} " \
+        rot = 1
+    keys = keys[rot:] + keys[:rot]
+    repos = {k: repos[k] for k in keys}
+    ctx = f"comp={[(i, c.get('parents'), c['match'], c.get('tag'), c.get('tag2')) for i, c in enumerate(case['comp']['commits'])]!r} " \
           f"parent={[(i, c['parents'], c['match'], c['pin'], c.get('tag'), c.get('tag_branch')) for i, c in enumerate(case['parent']['commits'])]!r} " \
-          f"branches={case['parent']['branches']!r}"
+          f"branches={case['parent']['branches']!r}" + (f" app={case['app']!r}" if case.get("app") else "")
     try:
-        with call_budget(400000, "ak/ghist.py"):
+        with call_budget(600000, "ak/ghist.py"):
             coll = G.ReposCollection(repos)
-            if coll.sorted_repos != ["comp", "main"]:
+            if coll.sorted_repos != expected_order:
                 f.append(("component_not_analysed_first", f"sorted_repos={coll.sorted_repos}"))
             data = dict(coll.make_reports_data(case["search"]))
             if case.get("render"):
@@ -134,53 +194,40 @@ def evaluate(case):
         import traceback
         where = traceback.extract_tb(e.__traceback__)[-1].name
         return Outcome(True, [], [("report_raises_%s_in_%s" % (type(e).__name__, where), f"{e}; {ctx}")])
-    crg = data["comp"]
-    seen_builds = {}
-    K = set()
-    for rb in crg.branches:
-        for b in rb.get_rbuilds_list():
-            if b.rcommit is None:
-                continue
-            idx = b.rcommit.commit.idx
-            got = sorted((str(r), str(br), "not built" if bn.is_fake_not_built() else str(bn)) for r, br, bn in b.included_at)
-            seen_builds[idx] = got
-            if not b.build_num.is_fake_not_built():
-                K.add(idx)
-    # sanity of K itself (exact placement is C06's property): every matching component commit lies in some reported build
     cc_ = case["comp"]["commits"]
-    canc_ = fakegit.ancestors_or_self([c.get("parents", [i - 1] if i else []) for i, c in enumerate(cc_)])
+    comp_parents = [c.get("parents", [i - 1] if i else []) for i, c in enumerate(cc_)]
+    seen_builds, K = reported_builds(data["comp"])
+    # sanity of K itself (exact placement is C06's property): every matching component commit lies in some reported build
+    canc_ = fakegit.ancestors_or_self(comp_parents)
     for i, c in enumerate(cc_):
         if c["match"] and i in canc_[len(cc_) - 1] and not any(i in canc_[k] for k in seen_builds):
             f.append(("matching_component_commit_in_no_reported_build", f"component commit {i}; {ctx}"))
-    incl, must_report, info = model(case, K)
+    key_to_idx = {}
+    for i, c in enumerate(cc_):
+        for t in (c.get("tag"), c.get("tag2")):
+            if t is not None:
+                key_to_idx[t] = i
+    incl, must_report, info = model_level(comp_parents, key_to_idx, K, case["parent"]["commits"], case["parent"]["branches"],
+                                          "main", parent_label)
     classes |= info
-    for k in K:
-        if k not in seen_builds:
-            f.append(("component_build_not_reported", f"component build at commit {k}; {ctx}"))
-            continue
-        want = sorted(incl[k])
-        got = seen_builds[k]
-        if got != want:
-            extra = [x for x in got if x not in want]
-            missing = [x for x in want if x not in got]
-            kind = "included_at_extra_parent_build" if extra and not missing else \
-                "included_at_missing_parent_build" if missing and not extra else "included_at_wrong_parent_build"
-            if not extra and not missing:
-                kind = "included_at_duplicate_entry"
-            f.append((kind, f"component build at commit {k}: included_at {got}, expected {want}; {ctx}"))
-    for idx, got in seen_builds.items():
-        if idx not in K and got:
-            f.append(("included_at_on_unexpected_component_build", f"component commit {idx}: {got}; {ctx}"))
-    # parent builds that ship new component builds must be reported
-    prg = data["main"]
-    reported = {(rb.branch_name, b.rcommit.commit.idx) for rb in prg.branches for b in rb.get_rbuilds_list()
-                if b.rcommit is not None}
-    for y, b in must_report:
-        if (y, b) not in reported:
-            f.append(("parent_build_with_component_bump_not_reported", f"branch {y} build commit {b}; {ctx}"))
+    compare_level(f, "", seen_builds, K, incl, must_report, data["main"], ctx)
+    if case.get("app"):
+        # second level: the parent repository is itself a component of 'app'
+        mseen, mK = reported_builds(data["main"])
+        pcs = case["parent"]["commits"]
+        mkey = {parent_label(c): i for i, c in enumerate(pcs) if c.get("tag") is not None}
+        incl2, must2, info2 = model_level([c["parents"] for c in pcs], mkey, mK, case["app"]["commits"],
+                                          case["app"]["branches"], "app", parent_label)
+        if mK:
+            classes.add("report_related_builds_in_middle_repo")
+            if not any(c["match"] for c in pcs):
+                classes.add("middle_repo_without_own_matching_commit")
+        compare_level(f, "_level2", mseen, mK, incl2, must2, data["app"], ctx)
+    if any(c.get("tag2") is not None for c in cc_):
+        classes.add("component_commit_with_two_build_tags")
     pc = case["parent"]["commits"]
     cc = case["comp"]["commits"]
-    if any([i for i, c in enumerate(cc) if c.get("tag") == p["pin"]][0] not in K for p in pc):
+    if any(key_to_idx[p["pin"]] not in K for p in pc):
         classes.add("pin_to_build_without_matching_commit")
     if any(len(c.get("parents", [])) >= 2 for c in cc):
         classes.add("component_history_with_merges")
@@ -288,8 +335,10 @@ def st_case(draw):
     nums = sorted(draw(st.lists(st.integers(1, 500), min_size=len(ccommits), max_size=len(ccommits), unique=True)))
     tagged = [c for c in ccommits if c["tag"] is not None]
     for c, n in zip(tagged, nums):
-        c["tag"] = n          # build numbers increase with the (topological) commit order
-    pins = [c["tag"] for c in tagged]
+        c["tag"] = 2 * n          # build numbers increase with the (topological) commit order
+        if draw(st.integers(0, 4)) == 0:
+            c["tag2"] = 2 * n + 1     # the same commit was built twice
+    pins = sorted([c["tag"] for c in tagged] + [c["tag2"] for c in tagged if c.get("tag2") is not None])
     names = draw(st.lists(st.sampled_from(["release/1.0", "release/2.0", "release/10.0", "release/2.10", "master"]),
                           min_size=1, max_size=4, unique=True))
     names.sort(key=fakegit.branch_sort_key)
@@ -319,8 +368,24 @@ def st_case(draw):
         branches[b] = cur
     for c in pcommits:
         c.pop("pin_i")
-    return {"search": search, "comp": {"commits": ccommits}, "parent": {"commits": pcommits, "branches": branches},
-            "order": draw(st.sampled_from(["comp_first", "main_first"])), "render": draw(st.integers(0, 4)) == 0}
+    case = {"search": search, "comp": {"commits": ccommits}, "parent": {"commits": pcommits, "branches": branches},
+            "order_rot": draw(st.integers(0, 2)), "render": draw(st.integers(0, 4)) == 0}
+    main_labels = [parent_label(c) for c in pcommits if c.get("tag") is not None]
+    if main_labels and len(names) == 1 and draw(st.integers(0, 1)) == 0:
+        # (only when the middle repository has a single branch: with several component branches 'contains' admits
+        # several readings, see ASSUMPTIONS)
+        # a third repository pins builds of the parent; pins are drawn in the parent's (topological) build order
+        if draw(st.booleans()):
+            for c in pcommits:
+                c["match"] = False          # the middle repository may be report-related through bumps only
+        acommits = []
+        li = 0
+        for i in range(draw(st.integers(1, 5))):
+            li = draw(st.integers(li, len(main_labels) - 1))
+            acommits.append({"parents": [i - 1] if i else [], "match": draw(st.integers(0, 2)) == 0, "pin": main_labels[li],
+                             "tag": next(tagnums) if draw(st.booleans()) else None, "tag_branch": "release/3.0"})
+        case["app"] = {"commits": acommits, "branches": {"release/3.0": len(acommits) - 1}}
+    return case
 
 
 @st.composite
